@@ -35,8 +35,9 @@ VInter(e) ==
   ELSE IF NonEmpty(e.res) THEN "intersection:pixels_from_nothing" ELSE "ok"
 
 VShape(e) == IF e.res = <<e.a[4] - e.a[3], e.a[2] - e.a[1]>> THEN "ok" ELSE "shape:wrong"
-VCenter(e) == IF e.res = <<e.a[4] - 1 + e.a[3], e.a[2] - 1 + e.a[1]>> THEN "ok" ELSE "center:wrong"
-VExtent(e) == IF e.res = <<2 * e.a[1] - 1, 2 * e.a[2] - 1, 2 * e.a[3] - 1, 2 * e.a[4] - 1>> THEN "ok" ELSE "extent:wrong"
+(* centre and extent are statements about the pixel set, as in BBox!CenterRef/ExtentRef: an empty box has none *)
+VCenter(e) == IF ~NonEmpty(e.a) \/ e.res = <<e.a[4] - 1 + e.a[3], e.a[2] - 1 + e.a[1]>> THEN "ok" ELSE "center:wrong"
+VExtent(e) == IF ~NonEmpty(e.a) \/ e.res = <<2 * e.a[1] - 1, 2 * e.a[2] - 1, 2 * e.a[3] - 1, 2 * e.a[4] - 1>> THEN "ok" ELSE "extent:wrong"
 
 (* res for slices: None or <<<<ylo,yhi>>,<<xlo,xhi>>>>,<<...>>>> of *normalised* index ranges     *)
 (* observed by applying the returned slices to index arrays (wrap-around shows up as a range     *)
